@@ -123,7 +123,8 @@ def _is_no_proxy_host(hostname: str, no_proxy: Optional[list]) -> bool:
         )
     for domain in [domain for domain in no_proxy if domain.startswith(".")]:
         endDomain = domain.lstrip('.')
-        if hostname.endswith(endDomain):
+        # match the domain itself or a subdomain, on a label boundary only
+        if hostname == endDomain or hostname.endswith("." + endDomain):
             return True
     return False
 
